@@ -64,6 +64,28 @@ var AdversarialKeys = []string{"", "<<", "1", "true", "yes", "~", "0x1f", "Key",
 // only for properties whose domain is every byte string.
 var ControlKeys = []string{"bel\a", "vt\vkey", "nul\x00", "del\x7f", "tag\U000e0001", "esc\x1b[0m"}
 
+// KeyNoLongDigitRuns: DefaultKey without keys that carry a run of 19 or more digits (yaml.v3 emits Go maps holding
+// such keys in an order that follows map iteration order, finding F22): for checks that compare YAML bytes across runs.
+func KeyNoLongDigitRuns(r *core.Rand) string {
+	for {
+		k := DefaultKey(r)
+		run, long := 0, false
+		for _, ch := range k {
+			if ch >= '0' && ch <= '9' {
+				run++
+				if run >= 19 {
+					long = true
+				}
+			} else {
+				run = 0
+			}
+		}
+		if !long {
+			return k
+		}
+	}
+}
+
 // KeyWithControls: DefaultKey, sometimes a key with a control character.
 func KeyWithControls(r *core.Rand) string {
 	if r.Intn(12) == 0 {
